@@ -117,6 +117,9 @@ def impl_init():
         p = ip / tcp
         if s["payload"]:
             p = p / Raw(load=bytes.fromhex(s["payload"]))
+        elif (s["seq"] + s["win"] + s["ttl"]) % 3 == 0:
+            # a payload layer that is there but EMPTY (TCP() / Raw(), TCP() / ""): the caller's object all the same
+            p = (p / Raw()) if s["win"] % 2 else (p / "")
         return p
 
     def impl(c):
